@@ -132,6 +132,8 @@ static void random_params(Rng& rng, int li, Dy& scale, Dy& shape) {
         if (li == 9 && shape.num < 4) continue;                 // exponential power beta >= 1/2 (tgamma(1/beta) moderate)
         if (scale.num == shape.num) continue;                   // off the diagonal
         if ((li == 2 || li == 8) && singular) stats.add("singular_density_params");
+        // the normal, hyperbolic-secant and logistic classes have separate code for scale == 1
+        if ((li == 3 || li == 5 || li == 7) && rng.coin(15)) { scale = Dy{8, 8}; if (shape.num == 8) shape.num = 12; stats.add("scale_exactly_one"); }
         return;
     }
 }
